@@ -37,24 +37,48 @@ abbrev Prices := List (String × List Rat)
 
 def Prices.lookup (p : Prices) (k : String) : Option (List Rat) := (List.find? (fun e => e.1 == k) p).map (·.2)
 
-/-- `make_vector(value, prices, default_value, convert)` on restricted grid `g`; `none` entries are NaN -/
+/-- `arr[I]` (numpy fancy indexing with non-negative indices): an index beyond the array is an IndexError -/
+def sample (arr : List Rat) (is : List Nat) : Except BuildError (List Rat) :=
+  if is.all (fun i => decide (i < arr.length)) then pure (is.map fun i => arr.getD i 0) else throw .index
+
+/-- `value * np.ones(T)` for an ndarray `value`: equal length passes, a one-element array is broadcast, every
+    other length is numpy's broadcast ValueError.  (NOT modelled: for `T = 1` numpy broadcasts the other way
+    round and silently returns a vector of the array's length.) -/
+def broadcastArray (vs : List Rat) (T : Nat) : Except BuildError (List Rat) :=
+  if vs.length = T then pure vs
+  else match vs with
+    | [v] => pure (List.replicate T v)
+    | _ => throw .lengthMismatch
+
+/-- `make_vector(value, prices, default_value, convert)` on restricted grid `g`; `none` entries are NaN.
+    scalar: constant; array: see `broadcastArray`; key: must be in the price data (assertion), sampled at the
+    grid's indices `I` (IndexError when too short); interval data: `values_to_grid` on the restricted points,
+    gaps filled with the default only where one is passed (`baseVector`).  `convert` multiplies by `dt`. -/
+def baseVector (v : ParamValue) (g : Grid) (prices : Prices) (dflt : Option Rat) :
+    Except BuildError (List (Option Rat)) :=
+  match v with
+  | .scalar s => pure (g.pts.map fun _ => some s)
+  | .array vs => (broadcastArray vs g.T).map (·.map some)
+  | .key k => match prices.lookup k with
+    | none => throw .assertion
+    | some arr => (sample arr g.idx).map (·.map some)
+  | .intervals ivs => match valuesToGrid g.pts ivs with
+    | .error _ => throw .overlap
+    | .ok r => pure (match dflt with
+      | some d => r.map fun o => some (o.getD d)
+      | none => r)
+
+/-- `vec * restricted.dt` (NaN stays NaN) -/
+def timesDt (base : List (Option Rat)) (g : Grid) : List (Option Rat) :=
+  (base.zip g.dt).map fun p => p.1.map (· * p.2)
+
 def makeVector (v : ParamValue) (g : Grid) (prices : Prices) (dflt : Option Rat) (convert : Bool) :
     Except BuildError (List (Option Rat)) := do
-  let base : List (Option Rat) ← match v with
-    | .scalar s => pure (g.pts.map fun _ => some s)
-    | .array vs => if vs.length = g.T then pure (vs.map some) else throw .lengthMismatch
-    | .key k => match prices.lookup k with
-      | none => throw .assertion
-      | some arr => pure (g.idx.map fun i => if i < arr.length then some (arr.getD i 0) else none)
-    | .intervals ivs => match valuesToGrid g.pts ivs with
-      | .error _ => throw .overlap
-      | .ok r => pure (match dflt with
-        | some d => r.map fun o => some (o.getD d)
-        | none => r)
-  if convert then pure ((base.zip g.dt).map fun p => p.1.map (· * p.2)) else pure base
+  let base ← baseVector v g prices dflt
+  if convert then pure (timesDt base g) else pure base
 
 /-- all entries defined, else the problem is rejected as NaN input -/
 def allSome (xs : List (Option Rat)) : Except BuildError (List Rat) :=
-  xs.mapM fun o => match o with | some v => pure v | none => throw .nanInput
+  if xs.all Option.isSome then pure (xs.map fun o => o.getD 0) else throw .nanInput
 
 end EAO
